@@ -25,7 +25,9 @@ func resolveBanAnchors(p *Prog, a *Anchors, r *Report) *banAnchors {
 		return nil
 	}
 	// ban maps = the TemplateSet map fields updated by BanTag / BanFilter; freeze flag = the bool field read in both
-	find := func(f *ssa.Function) (mp string, flags map[string]bool) {
+	depthFind := 0
+	var find func(f *ssa.Function) (mp string, flags map[string]bool)
+	find = func(f *ssa.Function) (mp string, flags map[string]bool) {
 		flags = map[string]bool{}
 		for _, b := range f.Blocks {
 			for _, in := range b.Instrs {
@@ -43,6 +45,15 @@ func resolveBanAnchors(p *Prog, a *Anchors, r *Report) *banAnchors {
 						}
 					}
 				case ssa.CallInstruction:
+					// predicate wrapper methods of the set (hasCreatedTemplate()): look one level into them
+					if cal := in.Common().StaticCallee(); cal != nil && cal.Blocks != nil && cal != f && depthFind < 1 && cal.Signature.Recv() != nil && structOf(cal.Signature.Recv().Type()) != nil && structOf(cal.Signature.Recv().Type()).Obj().Name() == "TemplateSet" {
+						depthFind++
+						_, sub := find(cal)
+						depthFind--
+						for k := range sub {
+							flags[k] = true
+						}
+					}
 					// atomic.LoadUint32(&set.flag) / (*atomic.Bool).Load
 					for _, arg := range in.Common().Args {
 						if fa, ok := arg.(*ssa.FieldAddr); ok {
@@ -675,11 +686,30 @@ func ruleC03Freeze(p *Prog, a *Anchors, ba *banAnchors, r *Report) {
 
 // isFreezeRead: c reads the freeze flag: load of the field, or atomic load of it (possibly compared with 0/1).
 func isFreezeRead(c ssa.Value, field string) bool {
+	return isFreezeReadD(c, field, 0)
+}
+
+func isFreezeReadD(c ssa.Value, field string, depth int) bool {
 	if loadsField(c, "TemplateSet", field) {
 		return true
 	}
+	// a small predicate method wrapping the read: every return value is itself a read of the flag
+	if call, ok := c.(*ssa.Call); ok && depth < 2 {
+		if cal := call.Common().StaticCallee(); cal != nil && cal.Blocks != nil && cal.Pkg != nil && cal.Pkg.Pkg.Path() != "sync/atomic" && len(cal.Blocks) <= 3 {
+			rets := returnsOf(cal)
+			all := len(rets) > 0
+			for _, ret := range rets {
+				if len(ret.Results) != 1 || !isFreezeReadD(res(ret, 0), field, depth+1) {
+					all = false
+				}
+			}
+			if all {
+				return true
+			}
+		}
+	}
 	if b, ok := c.(*ssa.BinOp); ok {
-		return isFreezeRead(b.X, field) || isFreezeRead(b.Y, field)
+		return isFreezeReadD(b.X, field, depth) || isFreezeReadD(b.Y, field, depth)
 	}
 	if call, ok := c.(*ssa.Call); ok {
 		if cal := call.Common().StaticCallee(); cal != nil && cal.Pkg != nil && cal.Pkg.Pkg.Path() == "sync/atomic" {
@@ -695,6 +725,25 @@ func isFreezeRead(c ssa.Value, field string) bool {
 
 // isFreezeSet: instruction stores true into the flag (plain store of constant true, or atomic store of non-zero).
 func isFreezeSet(x ssa.Instruction, field string) bool {
+	return isFreezeSetD(x, field, 0)
+}
+
+func isFreezeSetD(x ssa.Instruction, field string, depth int) bool {
+	// a small helper whose every path sets the flag
+	if ci, ok := x.(ssa.CallInstruction); ok && depth < 2 {
+		if cal := ci.Common().StaticCallee(); cal != nil && cal.Blocks != nil && cal.Pkg != nil && cal.Pkg.Pkg.Path() != "sync/atomic" {
+			rets := returnsOf(cal)
+			all := len(rets) > 0
+			for _, ret := range rets {
+				if !MustPass(ret, func(y ssa.Instruction) bool { return isFreezeSetD(y, field, depth+1) }) {
+					all = false
+				}
+			}
+			if all {
+				return true
+			}
+		}
+	}
 	switch x := x.(type) {
 	case *ssa.Store:
 		if isFieldAddrOf(x.Addr, "TemplateSet", field) {
